@@ -13,7 +13,7 @@ from vf.model import coerce as C, execute as X, validate as V
 PROPERTY = "C06"
 LEVEL = "model_checking"
 ASSUMPTIONS = ["E5's validator decides which documents are valid (all 29 June-2018 rules incl. 5.3.2 field merging)"]
-BUDGET_S = {"quick": 120, "thorough": 3000}
+BUDGET_S = {"quick": 600, "thorough": 3000}
 DEPTH = {"quick": 2, "thorough": 3}
 SLICES = {"quick": 8, "thorough": 32}
 KINDS = ("R3", "R5", "R6", "R8", "R10", "R11", "R14", "R15", "R16", "R4", "R17")
